@@ -49,6 +49,38 @@ fn far_label_cases(rng: &mut Rng, stack: bool) -> Vec<FileCase> {
     out
 }
 
+/// The SMALLEST programs around each field boundary (nothing before the first, nothing after the last statement involved),
+/// and images that end just below / at / above the top of memory.
+fn tight_cases(rng: &mut Rng, stack: bool) -> Vec<FileCase> {
+    let mut out = Vec::new();
+    for (k, bits) in pc_forms(stack) {
+        let half = 1i64 << (bits - 1);
+        for (pad, tag) in [(half - 2, "in"), (half - 1, "out")] {
+            // backward: label on the first statement, reference on the last one; offset = -(pad + 2)
+            let ast = vec![plain("halt").lab("target"), blkw(pad), mk_pc(k, rng, "target")];
+            out.push(FileCase { tag: format!("tight-back-{}-{}", k, tag), ast, exec: false, stack_hint: stack, input: vec![] });
+        }
+        for (pad, tag) in [(half - 1, "in"), (half, "out")] {
+            // forward: reference on the first statement, label on the last one; offset = pad
+            let ast = vec![mk_pc(k, rng, "target"), blkw(pad), plain("halt").lab("target")];
+            out.push(FileCase { tag: format!("tight-fwd-{}-{}", k, tag), ast: guard(ast.clone()), exec: false, stack_hint: stack, input: vec![] });
+            if k != "jsr" && k != "call" {
+                out.push(FileCase { tag: format!("tight-fwd0-{}-{}", k, tag), ast, exec: false, stack_hint: stack, input: vec![] });
+            }
+        }
+    }
+    for (o, sizes) in [(0xFFF0i64, vec![13i64, 14, 15, 16, 17]), (0xFFFE, vec![0, 1, 2, 3]), (0xFFFF, vec![0, 1, 2]), (0xFDF0, vec![14, 15, 16, 17])] {
+        for n in sizes {
+            let mut ast = vec![orig(o), plain("halt")];
+            if n > 0 {
+                ast.push(blkw(n));
+            }
+            out.push(FileCase { tag: format!("top-{:x}-{}", o, n), ast, exec: false, stack_hint: stack, input: vec![] });
+        }
+    }
+    out
+}
+
 fn gate_cases(rng: &mut Rng) -> Vec<FileCase> {
     let mut out = Vec::new();
     let mn = ["push", "pop", "call", "rets"];
@@ -103,6 +135,7 @@ pub fn main(args: &Args) {
                     cases.push(FileCase { tag: "verdict".into(), ast: guard(c.ast), exec: false, stack_hint: stack, input: vec![] });
                 }
                 cases.extend(far_label_cases(&mut rng, stack));
+                cases.extend(tight_cases(&mut rng, stack));
             }
             for prog in catalogue() {
                 cases.push(FileCase { tag: format!("cat-{}", prog.name), ast: guard(prog.ast), exec: false, stack_hint: prog.stack, input: vec![] });
